@@ -39,7 +39,7 @@ class Ob:
 
     def __init__(self, name, harness, defs=(), unwindset=None, unwind=None, checks="functional",
                  timeout=300, paths=False, flags=(), cc=(), object_bits=None, mem_gb=12, sample=None,
-                 extra_src=(), native_cc=(), solver=None, loops=None, entry=None):
+                 extra_src=(), native_cc=(), solver=None, loops=None, entry=None, restrict_fp=()):
         self.name = name
         self.harness = harness          # path relative to /verif/harness or absolute
         self.defs = list(defs)          # -D flags (without -D)
@@ -60,6 +60,10 @@ class Ob:
         # elsewhere in the file); resolved to CBMC loop ids with --show-loops after the build
         self.loops = dict(loops or {})
         self.entry = entry              # cbmc --function <entry>; replay build gets -DH_ENTRY=<entry>
+        # restrict_fp: ["<function>.function_pointer_call.<k>/<target>,<target>"]: goto-instrument --restrict-function-pointer after the
+        # build (the call is replaced by a case split over the named targets plus an ASSERTION that the pointer is one of them); for
+        # indirect calls whose candidate set cbmc 6.11's own function-pointer removal gets wrong
+        self.restrict_fp = list(restrict_fp)
         # results
         self.verdict = None
         self.detail = ""
@@ -108,7 +112,7 @@ ND_RE = re.compile(r"^\s*h_nd_vals\[(\d+)l*\]=.*\(([01 ]+)\)\s*$", re.M)
 
 
 def build_goto(ob, scratch):
-    key = hashlib.sha1(("%s|%s|%s" % (ob.hpath(), ob.defs, ob.cc)).encode()).hexdigest()[:16]
+    key = hashlib.sha1(("%s|%s|%s|%s" % (ob.hpath(), ob.defs, ob.cc, ob.restrict_fp)).encode()).hexdigest()[:16]
     gb = os.path.join(scratch, key + ".gb")
     if os.path.exists(gb):
         return gb, ""
@@ -120,6 +124,12 @@ def build_goto(ob, scratch):
     rc, out, _ = run(cmd, 300, 8)
     if rc != 0:
         return None, "goto-cc failed (%s):\n%s" % (rc, out[-3000:])
+    if ob.restrict_fp:
+        cmd = ["goto-instrument"] + [a for r in ob.restrict_fp for a in ("--restrict-function-pointer", r)] + [tmp, tmp + ".r"]
+        rc, out, _ = run(cmd, 300, 8)
+        if rc != 0 or not os.path.exists(tmp + ".r"):
+            return None, "goto-instrument --restrict-function-pointer failed (%s):\n%s" % (rc, out[-3000:])
+        os.rename(tmp + ".r", tmp)
     try:
         os.rename(tmp, gb)
     except OSError:
